@@ -37,14 +37,14 @@ def S(s):
 def boundary(tier):
     I = [0, 1, -1, 2, 7, -7, 255, 32767, -32768]
     L = [0, 1, -3, 32768, -32769, 65536, 100000, 2147483647, -2147483648]
-    Sg = [(0, 0), (1, -1), (-1, -1), (3, -1), (5, -1), (-5, -1), (3, 0), (1, -2), (16777215, 0), (-7, 2)]
-    D = [(1, -1), (-3, -1), (5, -1), (1, 10), (1, -3)]
+    Sg = [(0, 0), (1, -1), (-1, -1), (3, -1), (5, -1), (-5, -1), (3, 0), (1, -2), (16777215, 0), (-7, 2), (1, 127)]
+    D = [(1, -1), (-3, -1), (5, -1), (1, 10), (1, -3), (1, 130), (-3, 1000)]
     T = ['', 'a', 'ab', 'B', 'a ']
     if tier == 'quick':
         I = [0, -1, 2, 7, -7, 32767, -32768]
         L = [1, -3, 32768, 2147483647, -2147483648]
-        Sg = [(0, 0), (1, -1), (3, -1), (5, -1), (-5, -1), (-7, 2)]
-        D = [(1, -1), (-3, -1), (5, -1)]
+        Sg = [(0, 0), (1, -1), (3, -1), (5, -1), (-5, -1), (-7, 2), (1, 127)]
+        D = [(1, -1), (-3, -1), (5, -1), (1, 130)]
         T = ['', 'a', 'ab', 'B']
     b = [['I', v, 0] for v in I] + [['L', v, 0] for v in L] + [['S', m, e] for m, e in Sg] + \
         [['D', m, e] for m, e in D] + [['T', S(x), 0] for x in T]
